@@ -48,13 +48,14 @@ func checkC14(c *Ctx) {
 		fl := NewFlow(p, ae)
 		push := p.Method("core/eventloop", "queue", "push")
 		n := 0
-		for _, s := range callsIn(ae, false, func(cc *ssa.CallCommon) bool { return calleeIs(cc, push) }) {
+		for _, ds := range deepSites(fl, func(cc *ssa.CallCommon) bool { return calleeIs(cc, push) }, 0) {
+			s := ds.Site
 			n++
-			facts := fl.At(s)
+			facts := ds.Facts
 			ok := afterOf(facts, func(k string) bool {
 				return strings.HasPrefix(k, "(*hs/core/eventloop.EventLoop).processEvent(p0, p1, c:true)")
 			}) &&
-				fl.K.Key(s.Common().Args[1]) == "p1" && notNilOf(facts, is("p1"))
+				ds.Args[1] == "p1" && notNilOf(facts, is("p1"))
 			c.Check(ok, "C14.6", "AddEvent: in-AddEvent handlers run before the event is queued", p.Pos(s.Pos()),
 				"push(event) is preceded on every path by processEvent(event, true); nil events are not queued", "push not preceded by processEvent(event, true); facts: "+join(facts.Sorted()))
 		}
@@ -149,6 +150,42 @@ func c14ProcessEvent(c *Ctx, pe *ssa.Function) {
 			}
 		}
 	})
+	if len(calls) == 0 {
+		// the loops may be a private helper of the package called once per list (`runAndRelease(list, event)`)
+		runsParam := func(fn *ssa.Function) int {
+			idx := -1
+			eachInstr(fn, func(in ssa.Instruction) {
+				call, ok := in.(*ssa.Call)
+				if !ok || call.Call.StaticCallee() != nil || call.Call.IsInvoke() {
+					return
+				}
+				if _, isB := call.Call.Value.(*ssa.Builtin); isB || !strings.Contains(call.Call.Value.Type().String(), "EventHandler[") {
+					return
+				}
+				if u, ok := call.Call.Value.(*ssa.UnOp); ok {
+					if ia, ok := u.X.(*ssa.IndexAddr); ok {
+						if prm, ok := ia.X.(*ssa.Parameter); ok {
+							for i, q := range fn.Params {
+								if q == prm {
+									idx = i
+								}
+							}
+						}
+					}
+				}
+			})
+			return idx
+		}
+		eachInstr(pe, func(in ssa.Instruction) {
+			call, ok := in.(*ssa.Call)
+			if !ok || call.Call.StaticCallee() == nil || funcPkgPath(call.Call.StaticCallee()) != funcPkgPath(pe) || call.Call.StaticCallee().Blocks == nil {
+				return
+			}
+			if i := runsParam(call.Call.StaticCallee()); i >= 0 && i < len(call.Call.Args) {
+				calls = append(calls, hcall{in, call.Call.Args[i]})
+			}
+		})
+	}
 	if len(calls) != 2 {
 		c.Undecided("C14.2", "processEvent", p.FuncPos(pe), "expected two handler-invocation loops (prioritised, ordinary), found "+itoa(len(calls)))
 		return
@@ -258,6 +295,21 @@ func c14Delayed(c *Ctx) {
 		c.Unresolved("C14.3", "dispatchDelayedEvents", "anchor missing")
 		return
 	}
+	ddRoot := dd
+	// the read-and-remove may live in a private helper of the package that returns the removed list
+	for _, hf := range helperClosure(p, ddRoot, 1) {
+		has := false
+		kk := NewKeyer(p, hf)
+		eachInstr(hf, func(in ssa.Instruction) {
+			if x, ok := in.(*ssa.Lookup); ok && strings.HasSuffix(kk.Key(x.X), kEL+"waitingEvents") {
+				has = true
+			}
+		})
+		if has {
+			dd = hf
+			break
+		}
+	}
 	fl := NewFlow(p, dd)
 	lf := lockFlow(dd, lockState{})
 	var lookup *ssa.Lookup
@@ -294,10 +346,14 @@ func c14Delayed(c *Ctx) {
 	// re-added in order, outside the lock: AddEvent(elem) for elements of the looked-up slice by ascending index
 	ae := p.Method("core/eventloop", "EventLoop", "AddEvent")
 	okLoop := false
-	for _, s := range callsIn(dd, false, func(cc *ssa.CallCommon) bool { return calleeIs(cc, ae) }) {
-		k := fl.K.Key(s.Common().Args[1])
-		if strings.Contains(k, kEL+"waitingEvents[p1]") || strings.HasPrefix(k, "phi@") || strings.Contains(k, "#0[") {
-			if lf[s][kEL+"mut"] == lockNone {
+	flR, lfR := fl, lf
+	if dd != ddRoot {
+		flR, lfR = NewFlow(p, ddRoot), lockFlow(ddRoot, lockState{})
+	}
+	for _, s := range callsIn(ddRoot, false, func(cc *ssa.CallCommon) bool { return calleeIs(cc, ae) }) {
+		k := flR.K.Key(s.Common().Args[1])
+		if strings.Contains(k, kEL+"waitingEvents[p1]") || strings.HasPrefix(k, "phi@") || strings.Contains(k, "#0[") || (dd != ddRoot && strings.Contains(k, shortName(dd)+"(")) {
+			if lfR[s][kEL+"mut"] == lockNone {
 				okLoop = true
 			}
 		}
@@ -333,18 +389,71 @@ func c14Popped(c *Ctx) {
 	pop := p.Method("core/eventloop", "queue", "pop")
 	pe := p.Method("core/eventloop", "EventLoop", "processEvent")
 	st := p.Method("core/eventloop", "EventLoop", "startTicker")
+	// dispatches: every path through fn hands its parameter #idx to processEvent, or starts a ticker
+	var dispatches func(fn *ssa.Function, idx, depth int) bool
+	dispatches = func(fn *ssa.Function, idx, depth int) bool {
+		if fn == nil || fn.Blocks == nil || depth > 2 {
+			return false
+		}
+		k := NewKeyer(p, fn)
+		want := "p" + itoa(idx)
+		hit := func(in ssa.Instruction) bool {
+			ci, ok := in.(ssa.CallInstruction)
+			if !ok {
+				return false
+			}
+			if calleeIs(ci.Common(), st) {
+				return true
+			}
+			if calleeIs(ci.Common(), pe) {
+				ak := k.Key(ci.Common().Args[1])
+				return ak == want || ak == "*&["+want+"]"
+			}
+			if cal := ci.Common().StaticCallee(); cal != nil && funcPkgPath(cal) == funcPkgPath(fn) && cal != fn {
+				for i, a := range ci.Common().Args {
+					if ak := k.Key(a); (ak == want || ak == "*&["+want+"]") && dispatches(cal, i, depth+1) {
+						return true
+					}
+				}
+			}
+			return false
+		}
+		return reachAvoidFromPlain(fn.Blocks[0], 0, isReturn, hit, map[*ssa.BasicBlock]bool{fn.Blocks[0]: true}) == nil
+	}
+	type popFn struct {
+		name string
+		fn   *ssa.Function
+	}
+	var fns []popFn
 	for _, name := range []string{"Run", "Tick"} {
-		fn := p.Method("core/eventloop", "EventLoop", name)
-		if fn == nil {
+		root := p.Method("core/eventloop", "EventLoop", name)
+		if root == nil {
 			c.Unresolved("C14.4", name, "anchor missing")
 			continue
 		}
+		found := false
+		// the function itself and the private helpers of the package it drains the queue in
+		for _, hf := range helperClosure(p, root, 2) {
+			if hf == pop || hf == pe || hf == st {
+				continue
+			}
+			if len(callsIn(hf, false, func(cc *ssa.CallCommon) bool { return calleeIs(cc, pop) })) > 0 {
+				nm := name
+				if hf != root {
+					nm = name + " (" + hf.Name() + ")"
+				}
+				fns = append(fns, popFn{nm, hf})
+				found = true
+			}
+		}
+		if !found {
+			c.Unresolved("C14.4", name, "no pop call")
+		}
+	}
+	for _, pf := range fns {
+		name, fn := pf.name, pf.fn
 		fl := NewFlow(p, fn)
 		pops := callsIn(fn, false, func(cc *ssa.CallCommon) bool { return calleeIs(cc, pop) })
-		if len(pops) == 0 {
-			c.Unresolved("C14.4", name, "no pop call")
-			continue
-		}
 		for i, s := range pops {
 			pk := fl.K.Key(s.Value())
 			consumed := func(in ssa.Instruction) bool {
@@ -355,7 +464,18 @@ func c14Popped(c *Ctx) {
 				if calleeIs(ci.Common(), pe) && fl.K.Key(ci.Common().Args[1]) == pk+"#0" {
 					return true
 				}
-				return calleeIs(ci.Common(), st)
+				if calleeIs(ci.Common(), st) {
+					return true
+				}
+				// handed to a private helper of the package that dispatches it on every path
+				if cal := ci.Common().StaticCallee(); cal != nil && cal != fn && funcPkgPath(cal) == funcPkgPath(fn) {
+					for i, a := range ci.Common().Args {
+						if fl.K.Key(a) == pk+"#0" && dispatches(cal, i, 0) {
+							return true
+						}
+					}
+				}
+				return false
 			}
 			lost := func(in ssa.Instruction) bool {
 				if isReturn(in) {
@@ -778,10 +898,31 @@ func c14Registration(c *Ctx) {
 		}
 		return false
 	}
+	// a release written as a method of a small registration type counts as Register's own if values of that type are
+	// created only in Register (the method value is what Register returns)
+	isReleaseMethod := func(fn *ssa.Function) bool {
+		if fn.Signature.Recv() == nil || fn.Parent() != nil || funcPkgPath(fn) != funcPkgPath(reg) {
+			return false
+		}
+		nt := namedOf(fn.Signature.Recv().Type())
+		if nt == nil {
+			return false
+		}
+		sites := p.constructSites(nt)
+		if len(sites) == 0 {
+			return false
+		}
+		for _, e := range sites {
+			if !inRegister(e.Fn) {
+				return false
+			}
+		}
+		return true
+	}
 	var foreign []string
 	nOcc, nRel := 0, 0
 	for _, w := range writes {
-		if !inRegister(w.fn) {
+		if !inRegister(w.fn) && !isReleaseMethod(w.fn) {
 			foreign = append(foreign, p.InstrPos(w.in)+" in "+w.fn.String())
 			continue
 		}
@@ -866,9 +1007,15 @@ func c14ReleasedOnce(p *Prog, fn *ssa.Function, in ssa.Instruction) string {
 		if !ok || ld.Op != token.MUL {
 			continue
 		}
-		fv, ok := ld.X.(*ssa.FreeVar)
-		if !ok {
-			continue
+		fv, isFV := ld.X.(*ssa.FreeVar)
+		// or a bool field of the receiver of a method of a small registration type
+		var flagField *ssa.FieldAddr
+		if !isFV {
+			fa, isFA := ld.X.(*ssa.FieldAddr)
+			if !isFA || len(fn.Params) == 0 || fa.X != ssa.Value(fn.Params[0]) || fn.Signature.Recv() == nil {
+				continue
+			}
+			flagField = fa
 		}
 		setSucc, clearSucc := b.Succs[0], b.Succs[1] // flag set -> Succs[0]
 		if neg {
@@ -877,7 +1024,14 @@ func c14ReleasedOnce(p *Prog, fn *ssa.Function, in ssa.Instruction) string {
 		isStore := func(x ssa.Instruction) bool { return x == in }
 		setsFlag := func(x ssa.Instruction) bool {
 			st, ok := x.(*ssa.Store)
-			return ok && st.Addr == fv && isBoolConst(st.Val, true)
+			if !ok || !isBoolConst(st.Val, true) {
+				return false
+			}
+			if flagField != nil {
+				fa, isFA := st.Addr.(*ssa.FieldAddr)
+				return isFA && fa.X == flagField.X && fa.Field == flagField.Field
+			}
+			return st.Addr == fv
 		}
 		// (a) with the flag set the store is unreachable
 		if w := cfgSearch(fl, nil, setSucc, isStore, nil, nil); w != nil {
@@ -891,6 +1045,22 @@ func c14ReleasedOnce(p *Prog, fn *ssa.Function, in ssa.Instruction) string {
 		isRet := func(x ssa.Instruction) bool { _, ok := x.(*ssa.Return); return ok }
 		if w := cfgSearch(fl, nil, clearSucc, isRet, setsFlag, nil); w != nil {
 			return "the guard flag is not set on the path to " + p.InstrPos(w) + ": a second call clears the slot again"
+		}
+		if flagField != nil {
+			// (d') the field starts false (every construction of the type leaves it unset or false) and only this method writes it
+			fvar := fieldVar(flagField.X.Type(), flagField.Field)
+			for _, w := range p.fieldWrites(fvar) {
+				if w.Fresh {
+					if st, isSt := w.Instr.(*ssa.Store); isSt && !isBoolConst(st.Val, false) {
+						return "a registration is created with the guard flag already set at " + p.InstrPos(w.Instr)
+					}
+					continue
+				}
+				if declaredParent(w.Fn) != fn {
+					return "the guard flag is written outside the release method at " + p.InstrPos(w.Instr)
+				}
+			}
+			return ""
 		}
 		// (d) the flag starts false and only this closure touches it
 		par := fn.Parent()
